@@ -43,6 +43,9 @@ type c40Src struct {
 	clock int64 // fresh mtimes
 	seq   int
 	log   []string
+	// inodeCounts: the backup compares inodes (no --ignore-inode), so a change that only shows in
+	// the inode number is within the proviso
+	inodeCounts bool
 }
 
 func (s *c40Src) fresh(p string) {
@@ -96,7 +99,7 @@ func (s *c40Src) edit() string {
 	}
 	rel := func(p string) string { r, _ := filepath.Rel(s.root, p); return r }
 	for try := 0; try < 20; try++ {
-		switch op := rng.Intn(16); op {
+		switch op := rng.Intn(17); op {
 		case 0: // content change, same size
 			if len(files) == 0 {
 				continue
@@ -231,6 +234,30 @@ func (s *c40Src) edit() string {
 			f := kit.Pick(rng, all)
 			s.fresh(f.path)
 			return "touch " + rel(f.path)
+		case 16: // replaced by a DIFFERENT file of the same size and mtime: only the inode (and ctime) tell
+			// (seeded change C40-1: --ignore-ctime must not switch the inode comparison off)
+			if len(files) == 0 || !s.inodeCounts {
+				continue
+			}
+			f := kit.Pick(rng, files)
+			fi, err := os.Lstat(f.path)
+			if err != nil || fi.Size() == 0 {
+				continue
+			}
+			tmp := f.path + ".new"
+			if os.WriteFile(tmp, rng.Bytes(int(fi.Size())), fi.Mode().Perm()) != nil {
+				continue
+			}
+			_ = os.Chmod(tmp, fi.Mode().Perm()|fi.Mode()&(os.ModeSetuid|os.ModeSetgid|os.ModeSticky))
+			if st, ok := fi.Sys().(*syscall.Stat_t); ok {
+				_ = os.Lchown(tmp, int(st.Uid), int(st.Gid))
+			}
+			_ = os.Chtimes(tmp, fi.ModTime(), fi.ModTime())
+			if os.Rename(tmp, f.path) != nil {
+				_ = os.Remove(tmp)
+				continue
+			}
+			return "replace-by-other-file-same-size-mtime " + rel(f.path)
 		case 11: // replace by a copy: same content, same mtime, new inode
 			if len(files) == 0 {
 				continue
@@ -358,7 +385,7 @@ func c40Sequence(t *testing.T, rec *kit.Rec, ci int) {
 		return
 	}
 	history := []restic.ID{parent} // incremental snapshots so far (candidates for --parent)
-	s := &c40Src{root: src, rng: rng}
+	s := &c40Src{root: src, rng: rng, inodeCounts: !rp.IgnoreInode}
 	steps := rng.Range(3, 8)
 	for k := 0; k < steps; k++ {
 		rp.Step = k
